@@ -5,8 +5,8 @@
 //	    plaintext length under the default chunking, in both directions
 //	    (kit writes, reference + kit read; reference writes, kit reads);
 //	S2  uniform chunking policies of the four reader/consumer environments;
-//	S3  every placement of <= 1 (quick) / <= 2 (thorough) deviations from the
-//	    default answer of every environment call.
+//	S3  every placement of <= 2 deviations from the default answer of every
+//	    environment call (quick: boundary lengths, thorough: all 14 lengths).
 //
 // See NOTES.md.
 package c01
@@ -264,10 +264,12 @@ func run(r *enumx.Run, replay *enumx.ReplayCase) {
 
 	r.Rule("each evaluation is one complete Encrypt->Decrypt pipeline on the real code with all three oracles (round trip; README layout; reference implementation reads kit's document / kit reads the reference's document written with the manifest members in the opposite order). S1: full product cipher{unset,AES-GCM,CHACHA20-POLY1305} x 8 key-wrap configurations (5 algorithms, 2 aliases, RSA-4096) x 5 key-name options x 14 plaintext lengths x 2 directions. S2: uniform chunking policies (source chunk {fill,1,7,4096,65535,65536} x consumer buffer {big,1,7,4096}) for each pipeline half. S3: every set of <= bound deviations {0 bytes,1 byte,n-1 bytes,stop at segment boundary,data+EOF | 1-byte buffer,7-byte buffer} placed on the calls of the four environments, generated once each in (environment, call index) order from the applicability recorded in the parent run. Every evaluation is a distinct case by construction; none is trivial (each runs the full pipeline).")
 
+	// S3 is cheap (a few thousand pipelines), so both tiers take all placements
+	// of <= 2 deviations; quick restricts S2/S3 to the boundary lengths.
 	lengths := boundaryLengths
-	bound := 1
+	bound := 2
 	if r.Thorough() {
-		lengths, bound = allLengths, 2
+		lengths = allLengths
 	}
 	r.Set("deviation_bound", bound)
 	r.Set("lengths_chunking", lengths)
@@ -301,12 +303,18 @@ func run(r *enumx.Run, replay *enumx.ReplayCase) {
 	} else {
 		r.Incomplete(fmt.Sprintf("S1 configurations: %d of %d", done, len(s1)))
 	}
-	r.Sample(s1[len(s1)/3])
+	r.Sample(&Case{Len: 65537, Cipher: 2, KW: "RSA-OAEP-256/4096", KeyOpt: 3, Dir: 0})
+	r.Sample(&Case{Len: 131072, Cipher: 0, KW: "AES(alias)", KeyOpt: 2, Dir: 1})
 	lap("S1")
 
-	// ---- S2
+	// ---- S2 (quick: up to the first segment boundary only - a 1-byte consumer
+	// buffer costs one goroutine hand-over per plaintext byte)
+	s2lengths := lengths
+	if !r.Thorough() {
+		s2lengths = []int{0, 1, 65535, 65536, 65537}
+	}
 	var s2 []*Case
-	for _, n := range lengths {
+	for _, n := range s2lengths {
 		for ci := 1; ci <= 2; ci++ {
 			for _, a := range srcPolicies {
 				for _, b := range bufPolicies {
@@ -327,11 +335,12 @@ func run(r *enumx.Run, replay *enumx.ReplayCase) {
 		r.Count(1, 1)
 	})
 	if done == len(s2) {
-		r.Space(fmt.Sprintf("S2 uniform chunking policies: %d pipelines over lengths %v, both ciphers", len(s2), lengths))
+		r.Space(fmt.Sprintf("S2 uniform chunking policies: %d pipelines over lengths %v, both ciphers", len(s2), s2lengths))
 	} else {
 		r.Incomplete(fmt.Sprintf("S2 uniform chunking policies: %d of %d", done, len(s2)))
 	}
-	r.Sample(s2[len(s2)/2])
+	r.Sample(&Case{Len: 65537, Cipher: 1, KW: chunkKW, Policy: [4]int{65535, 7, 0, 0}})
+	r.Sample(&Case{Len: 65536, Cipher: 2, KW: chunkKW, Dir: 1, Policy: [4]int{0, 0, 1, 4096}})
 	lap("S2")
 
 	// ---- S3
